@@ -37,7 +37,20 @@ func SourceDictionary() [][]byte {
 		}
 		seen[string(b)] = true
 	}
-	for _, dir := range []string{"internal/magic", "internal/charset", "."} {
+	dirs := []string{"internal/magic", "internal/charset", "internal/json", "."}
+	if more, _ := filepath.Glob(filepath.Join(RepoDir(), "internal", "*")); len(more) > 0 {
+		for _, m := range more {
+			rel := filepath.Join("internal", filepath.Base(m))
+			known := false
+			for _, d := range dirs {
+				known = known || d == rel
+			}
+			if !known {
+				dirs = append(dirs, rel) // a package added by the change under test
+			}
+		}
+	}
+	for _, dir := range dirs {
 		files, _ := filepath.Glob(filepath.Join(RepoDir(), dir, "*.go"))
 		for _, f := range files {
 			if len(f) > 8 && f[len(f)-8:] == "_test.go" {
